@@ -16,6 +16,7 @@ type SpecCtx struct {
 	cur, old  *State
 	qvars     map[string]bool
 	brkBefore string // for fresh(): allocation watermark before the call
+	callee    bool   // evaluating a callee's contract at a call site: the caller's locals are not visible
 }
 
 func (g *Gen) specCtx(env map[string]*Val, cur, old *State) *SpecCtx {
@@ -67,6 +68,38 @@ func (sc *SpecCtx) eval(e *SExpr) (*Val, error) {
 		if v, ok := sc.env[e.Name]; ok {
 			return v, nil
 		}
+		if sc.callee {
+			if g.eng.preludeSyms[e.Name] {
+				return &Val{T: e.Name}, nil
+			}
+			if g.fn.Pkg != nil {
+				if c, ok := g.fn.Pkg.Pkg.Scope().Lookup(e.Name).(*types.Const); ok {
+					return g.constToVal(c)
+				}
+			}
+			// constants of the callee's package (contract written in its package)
+			if cv := g.eng.constByName(e.Name); cv != nil {
+				return g.constToVal(cv)
+			}
+			return nil, fmt.Errorf("identifier %q is not visible at this call site", e.Name)
+		}
+		if g.localAmbig[e.Name] {
+			return nil, fmt.Errorf("local variable name %q is ambiguous in this function (declared more than once)", e.Name)
+		}
+		if p, ok := g.localAddr[e.Name]; ok {
+			elem := p.Ty.Underlying().(*types.Pointer).Elem()
+			return &Val{T: g.load(sc.cur, p, elem), Ty: elem}, nil
+		}
+		if t, ok := g.localTypes["$local:"+e.Name]; ok {
+			if _, isParam := sc.env[e.Name]; !isParam {
+				if _, has := sc.cur.ghost["$local:"+e.Name]; has {
+					return &Val{T: g.ghostTerm(sc.cur, "$local:"+e.Name), Ty: t}, nil
+				}
+				// no value on this path (not yet assigned): an arbitrary value
+				u := g.havocVal(t, "undef."+e.Name)
+				return u, nil
+			}
+		}
 		if gs, ok := g.ghostSorts["$user:"+e.Name]; ok {
 			_ = gs
 			return &Val{T: g.ghostTerm(sc.cur, "$user:"+e.Name)}, nil
@@ -87,7 +120,13 @@ func (sc *SpecCtx) eval(e *SExpr) (*Val, error) {
 			}
 		}
 		// raw SMT symbol (declared in a spec prelude)
-		return &Val{T: e.Name}, nil
+		if g.eng.preludeSyms[e.Name] {
+			return &Val{T: e.Name}, nil
+		}
+		if cv := g.eng.constByName(e.Name); cv != nil {
+			return g.constToVal(cv)
+		}
+		return nil, fmt.Errorf("unknown identifier %q", e.Name)
 	case SOld:
 		sub := *sc
 		sub.cur = sc.old
@@ -435,6 +474,9 @@ func (sc *SpecCtx) call(e *SExpr) (*Val, error) {
 		}
 		return &Val{T: ite(c.T, a.T, b.T), Ty: a.Ty}, nil
 	case "called", "succeeded", "count":
+		if sc.callee {
+			return nil, fmt.Errorf("call history of the callee is not visible at a call site")
+		}
 		if len(e.Args) != 1 {
 			return nil, fmt.Errorf("%s takes one selector", e.Name)
 		}
@@ -450,6 +492,9 @@ func (sc *SpecCtx) call(e *SExpr) (*Val, error) {
 			return &Val{T: g.ghostTerm(sc.cur, "$count:"+sel), Ty: intType}, nil
 		}
 	case "result_of":
+		if sc.callee {
+			return nil, fmt.Errorf("call history of the callee is not visible at a call site")
+		}
 		if len(e.Args) != 2 || e.Args[1].Kind != SNum {
 			return nil, fmt.Errorf("result_of(selector, index)")
 		}
@@ -457,7 +502,7 @@ func (sc *SpecCtx) call(e *SExpr) (*Val, error) {
 		if _, ok := g.ghostSorts[gn]; !ok {
 			return nil, fmt.Errorf("result_of: no call matching %s seen before this point", selName(e.Args[0]))
 		}
-		return &Val{T: g.ghostTerm(sc.cur, gn)}, nil
+		return &Val{T: g.ghostTerm(sc.cur, gn), Ty: g.ghostTypes[gn]}, nil
 	case "fresh":
 		x, err := argv(0)
 		if err != nil {
